@@ -144,6 +144,13 @@ pub fn run(ctx: &mut Ctx) {
         let mut anchors = vec![];
         if si % 4 == 1 { anchors.push((Pki::generate(&mut rng).iaca, TrustPurpose::Iaca)); }
         if si % 4 >= 2 { anchors.push((crate::pki::root_cert_valid(&pki.iaca_key, "CN=Test IACA,C=US", 7, 1_000_000_000, 1_100_000_000), TrustPurpose::Iaca)); ctx.count("registry:expired-earlier-issue-first"); }
+        // ... or the root listed twice (merged trust lists), or next to a currently valid re-issue of itself (same name and key)
+        if si % 8 == 0 { anchors.push((pki.iaca.clone(), TrustPurpose::Iaca)); ctx.count("registry:root-listed-twice"); }
+        if si % 8 == 4 {
+            let now = std::time::SystemTime::now().duration_since(std::time::UNIX_EPOCH).unwrap().as_secs();
+            anchors.push((crate::pki::root_cert_valid(&pki.iaca_key, "CN=Test IACA,C=US", 17, now - 86_400, now + 10 * 86_400), TrustPurpose::Iaca));
+            ctx.count("registry:valid-reissue-first");
+        }
         anchors.push((pki.iaca.clone(), TrustPurpose::Iaca));
         if si % 4 == 3 { anchors.push((pki.reader_ca.clone(), TrustPurpose::ReaderCa)); }
         let reg = registry(anchors);
